@@ -9,6 +9,7 @@ From FV Require Import Base.Bytes Gen.Generated Codec.Varint Codec.NV Codec.Head
 Definition R_ERR : N := 4000000001.
 Definition W_ZERO : N := 4000000001.
 Definition W_ERR : N := 4000000002.
+Definition W_ERR_AB : N := 4000000003.   (* a transport write error whose io::ErrorKind is ConnectionAborted (ECONNABORTED) *)
 
 (* io::ErrorKind as observed by handlers *)
 Definition EK_Other : N := 1.
@@ -99,6 +100,7 @@ Definition t_poll_write (offer : bytes) (w : world) : pres (N + N) * world :=
     if k =? 0 then (PWake, w_set_w w ws' (wlog w))
     else if k =? W_ZERO then (PReady (inl 0), w_set_w w ws' (wlog w))
     else if k =? W_ERR then (PReady (inr EK_Transport), w_set_w w ws' (wlog w))
+    else if k =? W_ERR_AB then (PReady (inr EK_Aborted), w_set_w w ws' (wlog w))
     else let n := N.min k (len offer) in (PReady (inl n), w_set_w w ws' (wlog w ++ take n offer))
   end.
 
@@ -152,7 +154,10 @@ Definition io_fuel (w : world) (extra : N) : nat :=
   (length (rscript w) + length (wscript w) + length (flat_map (fun s => snd s) (segs w)) + N.to_nat extra + 16)%nat.
 
 (* ---- Request ---- *)
-Record rstate := mkR { rsp : sp; rwriteable : bool; rlock : bool }.
+(* raborted: Request.aborted — the parser reported this request's AbortRequest to poll_input (mod.rs) *)
+Record rstate := mkR { rsp : sp; rwriteable : bool; rlock : bool; raborted : bool }.
+
+Definition is_abort (e : perr) : bool := match e with EAbortRequest => true | _ => false end.
 
 Definition is_final_stream (r : rstate) : bool :=
   match next_input_stream (r_role (sreq (rsp r))) (stream (rsp r)) with None => true | Some _ => false end.
@@ -167,14 +172,14 @@ Fixpoint poll_output (fuel : nat) (r : rstate) (w : world) : pres (unit + N) * r
   | O => (PReady (inr 99), r, w)
   | S f =>
     match output_buffer (rsp r) with
-    | [] => (PReady (inl tt), mkR (rsp r) (rwriteable r) false, w)
+    | [] => (PReady (inl tt), mkR (rsp r) (rwriteable r) false (raborted r), w)
     | out =>
       match t_poll_write out w with
       | (PReady (inl n), w') =>
-        if n =? 0 then (PReady (inr EK_WriteZero), mkR (rsp r) (rwriteable r) true, w')
-        else poll_output f (mkR (consume_output (rsp r) n) (rwriteable r) true) w'
-      | (PReady (inr k), w') => (PReady (inr k), mkR (rsp r) (rwriteable r) true, w')
-      | (PWake, w') => (PWake, mkR (rsp r) (rwriteable r) true, w')
+        if n =? 0 then (PReady (inr EK_WriteZero), mkR (rsp r) (rwriteable r) true (raborted r), w')
+        else poll_output f (mkR (consume_output (rsp r) n) (rwriteable r) true (raborted r)) w'
+      | (PReady (inr k), w') => (PReady (inr k), mkR (rsp r) (rwriteable r) true (raborted r), w')
+      | (PWake, w') => (PWake, mkR (rsp r) (rwriteable r) true (raborted r), w')
       | (PBlock, w') => (PBlock, r, w')
       end
     end
@@ -188,15 +193,15 @@ Fixpoint input_loop (fuel : nat) (dest : option N) (new : bytes) (r : rstate) (w
   | S f =>
     match sparse maxc (rsp r) new dest with
     | StPanic n => (PReady (inr (1000 + n)), r, w)
-    | StErr p' e _ => (PReady (inr (perr_kind e)), mkR p' (rwriteable r) (rlock r), w)
+    | StErr p' e _ => (PReady (inr (perr_kind e)), mkR p' (rwriteable r) (rlock r) (raborted r || is_abort e), w)
     | StOk p' s =>
-      let r1 := mkR p' (rwriteable r) (rlock r) in
+      let r1 := mkR p' (rwriteable r) (rlock r) (raborted r) in
       if s_end s || (0 <? s_stream s) then
-        let r2 := if negb (rwriteable r1) && is_final_stream r1 then mkR p' true (rlock r) else r1 in
+        let r2 := if negb (rwriteable r1) && is_final_stream r1 then mkR p' true (rlock r) (raborted r) else r1 in
         (PReady (inl (s_stream s, s_dest s)), r2, w)
       else
         let p2 := compress p' in
-        let r2 := mkR p2 (rwriteable r) (rlock r) in
+        let r2 := mkR p2 (rwriteable r) (rlock r) (raborted r) in
         match poll_output fuel r2 w with
         | (PReady (inl _), r3, w0) =>
           match t_poll_read (sinput_space (rsp r3)) w0 with
@@ -224,7 +229,7 @@ Definition poll_input (fuel : nat) (dest : option N) (r : rstate) (w : world)
   | None, _ :: _ => (PReady (inl (0, [])), r, w)
   | Some c, _ :: _ =>
     let n := N.min c (len sb) in
-    (PReady (inl (n, take n sb)), mkR (consume_stream (rsp r) n) (rwriteable r) (rlock r), w)
+    (PReady (inl (n, take n sb)), mkR (consume_stream (rsp r) n) (rwriteable r) (rlock r) (raborted r), w)
   | _, [] =>
     match poll_output fuel r w with
     | (PReady (inl _), r', w') => input_loop fuel dest [] r' w'
@@ -253,7 +258,7 @@ Definition do_writeable (r : rstate) (w : world) : res (option N * rstate) :=
     let last := match rev (role_input_streams (r_role (sreq (rsp r)))) with x :: _ => Some x | [] => None end in
     match set_stream (rsp r) last with
     | SetOk p' =>
-      match await_input (io_fuel w 0) None (mkR p' (rwriteable r) (rlock r)) w with
+      match await_input (io_fuel w 0) None (mkR p' (rwriteable r) (rlock r) (raborted r)) w with
       | Ok (inl _, r') w' => Ok (None, r') w'
       | Ok (inr k, r') w' => Ok (Some k, r') w'
       | Halt o w' => Halt o w'
@@ -267,11 +272,11 @@ Fixpoint boundary_loop (fuel : nat) (new : bytes) (r : rstate) (w : world) : res
   | O => Halt OFuel w
   | S f =>
     let after (p' : sp) : res (option N * rstate) :=
-      let r1 := mkR p' (rwriteable r) (rlock r) in
+      let r1 := mkR p' (rwriteable r) (rlock r) (raborted r) in
       if is_record_boundary p' then Ok (None, r1) w
       else
         let p2 := compress p' in
-        let r2 := mkR p2 (rwriteable r) (rlock r) in
+        let r2 := mkR p2 (rwriteable r) (rlock r) (raborted r) in
         match await_read (io_fuel w 0) false (sinput_space p2) w with
         | Ok (inl []) w' => Ok (Some EK_UnexpectedEof, r2) w'
         | Ok (inl b) w' => boundary_loop f b r2 w'
@@ -282,7 +287,7 @@ Fixpoint boundary_loop (fuel : nat) (new : bytes) (r : rstate) (w : world) : res
     | StPanic n => Halt (OPanic (1000 + n)) w
     | StOk p' _ => after p'
     | StErr p' EAbortRequest _ => after p'
-    | StErr p' e _ => Ok (Some (perr_kind e), mkR p' (rwriteable r) (rlock r)) w
+    | StErr p' e _ => Ok (Some (perr_kind e), mkR p' (rwriteable r) (rlock r) (raborted r)) w
     end
   end.
 
@@ -294,7 +299,7 @@ Definition record_boundary (r : rstate) (w : world) : res (option N * rstate) :=
 Definition close_tail (r1 : rstate) (disc code : N) (w1 : world) : res (parser + N) :=
   match set_stream (rsp r1) None with
   | SetOk p2 =>
-    match record_boundary (mkR p2 (rwriteable r1) (rlock r1)) w1 with
+    match record_boundary (mkR p2 (rwriteable r1) (rlock r1) (raborted r1)) w1 with
     | Halt o w' => Halt o w'
     | Ok (Some k2, _) w2 => Ok (inr k2) w2
     | Ok (None, r3) w2 =>
@@ -329,7 +334,7 @@ Definition do_close (r : rstate) (disc code : N) (w : world) : res (parser + N) 
   match do_writeable r w with
   | Halt o w' => Halt o w'
   | Ok (None, r1) w1 => close_tail r1 disc code w1
-  | Ok (Some k, r1) w1 => if k =? EK_Aborted then close_tail r1 disc code w1 else Ok (inr k) w1
+  | Ok (Some k, r1) w1 => if (k =? EK_Aborted) && raborted r1 then close_tail r1 disc code w1 else Ok (inr k) w1
   end.
 
 (* StreamWriter::poll_write driven by write_all (mod.rs:63-116): one record per <= 65535 bytes;
@@ -414,12 +419,12 @@ Fixpoint run_handler (fuel : nat) (script : list N) (r : rstate) (w : world) : r
       | Ok (inl _, r') w' =>
         let seen := stream_buffer (rsp r') in
         let c := N.min k (len seen) in
-        run_handler f rest (mkR (consume_stream (rsp r') c) (rwriteable r') (rlock r')) (w_ev (w_ev w' [3; 1; c]) seen)
+        run_handler f rest (mkR (consume_stream (rsp r') c) (rwriteable r') (rlock r') (raborted r')) (w_ev (w_ev w' [3; 1; c]) seen)
       | Ok (inr e, r') w' => run_handler f rest r' (w_ev (w_ev w' [3; 0; e]) [])
       end
     | 4 :: s :: rest =>
       match set_stream (rsp r) (Some s) with
-      | SetOk p' => run_handler f rest (mkR p' (rwriteable r) (rlock r)) (w_ev w [4; stream_code (stream p')])
+      | SetOk p' => run_handler f rest (mkR p' (rwriteable r) (rlock r) (raborted r)) (w_ev w [4; stream_code (stream p')])
       | _ => Halt (OPanic 70) w
       end
     | 5 :: rest =>
@@ -443,6 +448,12 @@ Fixpoint run_handler (fuel : nat) (script : list N) (r : rstate) (w : world) : r
       if rwriteable r then run_handler f rest r (w_ev w [7; 0]) else run_handler f rest r (w_ev w [7; 99])
     | 8 :: d :: c :: _ => Ok (inl (d, c), r) (w_ev w [8])
     | 9 :: k :: _ => Ok (inr (if (2 <=? k) && (k <=? 7) then k else EK_Other), r) (w_ev w [9])
+    | 10 :: n :: rest =>                                   (* req.read(&mut buf[..n]).await?  — propagates the error *)
+      match await_input (io_fuel w 0) (Some n) r w with
+      | Halt o w' => Halt o w'
+      | Ok (inl (c, b), r') w' => run_handler f rest r' (w_ev (w_ev w' [1; 1; c]) b)
+      | Ok (inr k, r') w' => Ok (inr k, r') (w_ev (w_ev w' [1; 0; k]) [])
+      end
     | _ => Halt (OPanic 71) w
     end
   end.
@@ -488,7 +499,7 @@ Fixpoint run_loop (fuel : nat) (p : parser) (scripts : list (list N)) (served : 
       | Ok (inr _) w' => (ORet, w')
       | Ok (inl s0) w' =>
         let rq := sreq s0 in
-        let r0 := mkR s0 (len (role_input_streams (r_role rq)) <=? 1) false in
+        let r0 := mkR s0 (len (role_input_streams (r_role rq)) <=? 1) false false in
         let env := canon_env (r_env rq) in
         let w1 := fold_left (fun w p => w_ev (w_ev w (fst p)) (snd p)) env
                     (w_ev (w_ev w' [100; epoch w']) [r_role rq; r_flags rq; len env; stream_code (stream s0);
@@ -499,7 +510,7 @@ Fixpoint run_loop (fuel : nat) (p : parser) (scripts : list (list N)) (served : 
         | Ok (st, r1) w2 =>
           let status := match st with
                         | inl dc => Some dc
-                        | inr k => if k =? EK_Aborted then Some (EXIT_Complete, EXIT_ABORT_CODE) else None
+                        | inr k => if (k =? EK_Aborted) && raborted r1 then Some (EXIT_Complete, EXIT_ABORT_CODE) else None
                         end in
           match status with
           | None => (ORet, w2)
